@@ -11,6 +11,7 @@ CONSTANTS
   MaxCalls = 1000000
   Execs = {}
   Stateless = TRUE
+  FreshArrays = TRUE
 CONSTRAINT Hwm
-INVARIANTS LeaderIsOperator LeaderIgnoresOrderAndRepetition LeaderHistoryIndependent LeaderIdempotent LeaderRankDependsOnSeedAndSize ChecklistShape HeartbeatBySeedOnly ChecklistHistoryIndependent SeedHistoryIndependent
+INVARIANTS LeaderIsOperator LeaderIgnoresOrderAndRepetition LeaderHistoryIndependent LeaderIdempotent LeaderRankDependsOnSeedAndSize ChecklistShape HeartbeatBySeedOnly ChecklistHistoryIndependent SeedHistoryIndependent ChecklistStable ChecklistDependsOnlyOnSeedAndWindow
 POSTCONDITION Accepted
